@@ -1203,6 +1203,21 @@ pub fn main(args: &crate::Args) {
                     }
                     sel.extend(extra);
                 }
+                if args.u64("grind-only", 0) == 1 {
+                    // C07's use of this campaign: only the proof-of-work forgeries (every pair of prover-side bit counts)
+                    let (c, q) = target.pow_bits;
+                    sel.retain(|id| id.starts_with("grind:"));
+                    if !sel.is_empty() {
+                        for pc in 0..=c + 1 {
+                            for pq in 0..=q + 1 {
+                                let id = format!("grind:{pc}:{pq}");
+                                if (pc, pq) != (c, q) && !sel.contains(&id) {
+                                    sel.push(id);
+                                }
+                            }
+                        }
+                    }
+                }
                 ids.extend(sel.into_iter().map(|id| (id, None)));
             }
             // checks seen decisive (native rejection names the check, both circuit modes reject)
